@@ -110,7 +110,7 @@ def cases(draw, isa, archs):
     for i in range(n):
         mn, kinds, roles, fr, fw = draw(st.sampled_from(table))
         ops = [draw(operand(isa, k, i)) for k in kinds]
-        if mn in ("xorq", "subq") and draw(st.integers(0, 2)) == 0:
+        if mn in ("xorq", "subq") and kinds == ["g", "g"] and draw(st.integers(0, 2)) == 0:
             ops[1] = dict(ops[0])
         lines.append({"mn": mn, "kinds": kinds, "roles": roles, "fr": fr, "fw": fw, "ops": ops})
     return {"kind": "real", "isa": isa, "arch": draw(st.sampled_from(archs)), "lines": lines,
